@@ -12,7 +12,8 @@ Atoms 0..N are frame bits (absolute bit index in the input buffer); fresh atoms 
 import itertools
 
 ATOM_FRESH = 4096
-_vid = itertools.count(1)
+# value identities must not collide with those inside decode models unpickled from an earlier process
+_vid = itertools.count(((__import__('time').time_ns() & 0xFFFFFFFFFF) << 24) + (__import__('os').getpid() & 0xFFFF) * 256 + 1)
 
 ZERO = (0, 0)
 ONE = (0, 1)
